@@ -110,6 +110,23 @@ def mark_body(toks, a, b):
                         elif x.text == ";" and depth == 0: break
                     e += 1
                 _mark(toks, k, e + 1, "ghost"); k = e + 1; continue
+            if t.text == "fn" and toks[k + 1].kind == "ident" and toks[k + 2].text == "(":
+                # nested fn item (no generics): its contract is marked like that of a top-level fn
+                pe = match_close(toks, k + 2)
+                nbody = first_brace_depth0(toks, pe + 1)
+                if nbody >= 0 and toks[nbody].text == "{":
+                    j = pe + 1
+                    if seq_at(toks, j, "->"):
+                        j += 2
+                        if toks[j].text == "(" and toks[j + 1].kind == "ident" and toks[j + 2].text == ":" and not seq_at(toks, j + 2, "::"):
+                            c = match_close(toks, j)
+                            _mark(toks, j, j + 3, "ret_open")
+                            _mark(toks, c, c + 1, "ret_close")
+                            j = c + 1
+                    ck = _first_clause_kw(toks, j, nbody)
+                    if ck >= 0:
+                        _mark(toks, ck, nbody, "clause")
+                k += 1; continue
             if t.text in ("while", "for", "loop") and (k == 0 or toks[k - 1].text not in (".",)):
                 if t.text == "loop" and toks[k + 1].text not in ("{",) and not (toks[k + 1].kind == "ident" and toks[k + 1].text in CLAUSE_KW):
                     k += 1; continue
